@@ -211,6 +211,18 @@ pub fn run(ctx: &Ctx) {
                         rep.sample(json!({"backend": b.name, "purpose": purpose, "token": tokstr, "control": "decoder x1, validator x1"}));
                     }
                     let others: Vec<Vec<u8>> = if purpose == "local" { vec![g.bytes(32)] } else { kps.iter().skip(1).map(|k| k.pk.clone()).collect() };
+                    // a token whose footer BYTES differ but decode to the same typed footer is not the token that was
+                    // sealed: read through a typed footer it must fail authentication (if it is accepted, the
+                    // decoder and the validator ran on it)
+                    if !t.footer.is_empty() && t.footer.last() != Some(&b' ') {
+                        let mut f2 = t.footer.clone();
+                        f2.push(b' ');
+                        let alias = lab::token_string(b.ver, purpose, &t.payload, &f2);
+                        rep.evaluations += 1;
+                        if let Ok((m2, _)) = (b.unseal_typed_footer)(purpose == "local", &t.key, &alias, &t.aad) {
+                            rep.violation(&format!("c12.{}.{}.ran-on-unauthenticated", b.name, purpose), format!("{} {}: a token whose footer bytes were changed (one space appended; the typed footer decodes to the same value) was accepted: the payload decoder returned {} bytes", b.name, purpose, m2.len()), json!({"backend": b.name, "purpose": purpose, "token": alias, "key": hex::encode(&t.key), "aad": hex::encode(&t.aad), "fault": "typed-footer-alias"}));
+                        }
+                    }
                     let fs = faults(&bs, bi, &t, &others, &mut g, false);
                     let rsa = b.name == "v1" && purpose == "public";
                     let stride = if thorough { 1 } else if rsa { 16 } else { 3 };
